@@ -112,7 +112,8 @@ Definition do_op (r : router) (op : val) : router * val :=
     (r, L [I 2; vlist v_cx (fst f);
            L [vlist vN (t_rvs (snd f)); vnat (length (t_pats (snd f))); vnat (length (t_convs (snd f)));
               vbool (t_ok (snd f))];
-           vlist v_node (r_roots r); vbool (wf ci cm (r_roots r))])
+           vlist v_node (r_roots r); vbool (wf ci cm (r_roots r));
+           vbool (t_ok (snd f) && src_ok literal_src_quoted (fst f))])
   | L [I 3; uri; obs] =>
     (r, L [I 3; vbool (find_oracle ci cm (r_roots r) (dstr uri) (d_result obs))])
   | _ => (r, L [I (-1)])
